@@ -33,14 +33,15 @@ def bounds(tier):
     return dict(dialects=len(G.ALL), shapes=list(files.SHAPES), n_checklines_pairs=pairs(tier),
                 kinds=list(KINDS),
                 strategies=list(STRATS if tier != "quick" else STRATS[:3]),
-                sort_attribute_values=[False] if tier == "quick" else [False, True])
+                sort_attribute_values=[False, "True with unsorted input"] if tier == "quick" else [False, True, "True with unsorted input"])
 
 
 def shards(tier):
     return [(di, sh) for di in range(len(G.ALL)) for sh in files.SHAPES]
 
 
-def observe(ctx, db, lines, texts, sig, where):
+def observe(ctx, db, lines, texts, sig, where, unsorted=False):
+    dialect_before = repr(db.dialect)
     feats = list(db.all_features())
     if not ctx.check(len(feats) == len(lines), "feature-count-differs", dict(sig, where=where),
                      expected=len(lines), got=len(feats), file=texts):
@@ -53,8 +54,22 @@ def observe(ctx, db, lines, texts, sig, where):
         ctx.check(o["extra"] == list(extras), "extras-differ", dict(sig, where=where), line=text, got=o["extra"], index=i)
         exp = list(G.expected_attrs(items).items())
         ctx.check(o["attrs"] == exp, "attributes-differ", dict(sig, where=where), line=text, got=o["attrs"], expected=exp, index=i)
-        ctx.check(str(f) == text, "printed-line-differs", dict(sig, where=where, beyond_window=i > sig["checklines"]),
-                  line=text, printed=str(f), index=i, file=texts)
+        printed = str(f)
+        if unsorted:
+            # sort_attribute_values with unsorted input: the print shows sorted values; identity is not demanded
+            cols = printed.split("\t")
+            ctx.check(cols[:8] == text.split("\t")[:8], "printed-line-differs", dict(sig, where=where, unsorted=True), line=text, printed=printed)
+        else:
+            ctx.check(printed == text, "printed-line-differs", dict(sig, where=where, beyond_window=i > sig["checklines"]),
+                      line=text, printed=printed, index=i, file=texts)
+        # printing is an observation: it changes neither the feature nor the dialect shared by the database
+        after = dbutil.feature_obs(f)
+        ctx.check(after["attrs"] == exp and str(f) == printed, "printing-changed-the-feature", dict(sig, where=where), line=text,
+                  after=after["attrs"], expected=exp)
+    ctx.check(repr(db.dialect) == dialect_before, "printing-changed-the-database-dialect", dict(sig, where=where),
+              before=dialect_before, after=repr(db.dialect))
+    if False:
+        pass
 
 
 def body(ch, ctx):
@@ -64,9 +79,14 @@ def body(ch, ctx):
     n, cl = ch.choose("n_checklines", pairs(tier))
     kind = ch.choose("kind", KINDS)
     strat = ch.choose("strategy", STRATS[:3] if tier == "quick" else STRATS)
-    sav = ch.choose("sort_attribute_values", (False,) if tier == "quick" else (False, True))
+    sav = ch.choose("sort_attribute_values", (False, "unsorted") if tier == "quick" else (False, True, "unsorted"))
     lines = files.file_lines(d, shape, n)
-    if sav:
+    unsorted = sav == "unsorted"
+    if unsorted:
+        # values deliberately NOT in sorted order, printed with sort_attribute_values=True
+        lines = [(c, [(k, sorted(v, key=lambda x: G.value_text(d, x), reverse=True)) for k, v in items], e) for c, items, e in lines]
+        sav = True
+    elif sav:
         lines = [(c, [(k, sorted(v, key=lambda x: G.value_text(d, x))) for k, v in items], e) for c, items, e in lines]
     texts = files.render(d, lines)
     wd = ctx.fresh_dir()
@@ -79,13 +99,16 @@ def body(ch, ctx):
     dbfn = ":memory:" if kind == "memory" else os.path.join(wd, "out.db")
     kw = dict(keep_order=True, sort_attribute_values=sav, merge_strategy=strat, checklines=cl, verbose=False)
     db = gffutils.create_db(path, dbfn, **kw)
-    observe(ctx, db, lines, texts, sig, "fresh")
+    observe(ctx, db, lines, texts, sig, "fresh", unsorted)
     first = dbutil.canon(db)
     if kind == "reopen":
         dbutil.close_db(db)
         db = gffutils.FeatureDB(dbfn, keep_order=True, sort_attribute_values=sav)
-        observe(ctx, db, lines, texts, sig, "reopened")
+        observe(ctx, db, lines, texts, sig, "reopened", unsorted)
         ctx.check(dbutil.canon(db) == first, "content-changed-by-reopen", sig)
+    if unsorted:
+        dbutil.close_db(db)
+        return
     # re-importing the printed features gives an equivalent database
     printed = [str(f) for f in db.all_features()]
     path2 = dbutil.write_text(wd, "printed.gff", "\n".join(printed) + "\n")
